@@ -54,8 +54,8 @@ def generate(prop, rng):
         tree["d/" + rng.choice(gen.NAMES)] = rng.randrange(len(pool))
     cfg = {
         "family": fam,
-        "reflink": gen.weighted(rng, [(4, "enotsup"), (4, "nocow"), (3, "cow")]),
-        "hardlink": fam in ("stage_transfer", "xfer_ll") and rng.random() < 0.25,
+        "reflink": gen.weighted(rng, [(3, "enotsup"), (5, "nocow"), (3, "cow")]),
+        "hardlink": fam in ("stage_transfer", "xfer_ll") and rng.random() < 0.45,
         "jobs": rng.choice([1, 2, None]),
         "tick_ns": rng.choice([1000, 1_000_000, 1_000_000_000]),
         "state": fam in ("stage_transfer", "index_save", "upload") or rng.random() < 0.5,
